@@ -1,0 +1,609 @@
+//! Verification harness (feature `verif`, property C15; see /verif): drives the real
+//! vote-extension validation (`validate_vote_extensions`, `ProposalHandler::{prepare_proposal,
+//! validate_proposal}`) and the real price aggregation
+//! (`astria_core::oracles::price_feed::utils::calculate_prices_from_vote_extensions`,
+//! `apply_prices_from_vote_extensions`) from a case script (`$VERIF_IN`) and writes canonical
+//! observation lines to `$VERIF_OUT`.
+//!
+//! Script (one case = a `case` line and the lines up to the next `case` line / end of file; the
+//! case is executed when it is complete):
+//! ```text
+//! case <n> h=<u64> ecr=<u32> lcr=<u32> maxpairs=<u64>
+//! val <k> <power>                 stored validator, key `SigningKey::from([k; 32])`
+//! pair <id> <name> <dec>          currency pair `VP<name>/USD` with id <id> in state + market map
+//! vote <k> <power> <flag> <ext> <sig>     extended-commit vote attributed to validator <k>
+//! lc <k> <power> <flag>           last-commit vote
+//! map <id> <name> <dec>           entry of the proposal's id -> currency pair mapping
+//! ```
+//! `<flag>` = absent|commit|nil|legacy; `<ext>` = `-` (no bytes) | `g` (undecodable bytes) | `u`
+//! (bytes decoding to no prices) | `id:price,...` with price an i128 or `L<n>` (n raw bytes);
+//! `<sig>` = none | ok | zero | by:<j> | round:<r> | height:<h> | chain | ext.
+use std::{
+    collections::BTreeMap,
+    fmt::Write as _,
+    panic::{
+        catch_unwind,
+        AssertUnwindSafe,
+    },
+};
+
+use astria_core::{
+    crypto::SigningKey,
+    oracles::price_feed::{
+        market_map::v2::{
+            Market,
+            MarketMap,
+            Ticker,
+        },
+        oracle::v2::CurrencyPairState,
+        types::v2::{
+            CurrencyPair,
+            CurrencyPairId,
+            CurrencyPairNonce,
+        },
+    },
+    protocol::transaction::v1::action::ValidatorUpdate,
+};
+use cnidarium::{
+    Snapshot,
+    StateDelta,
+    TempStorage,
+};
+use tendermint::abci::types::{
+    ExtendedVoteInfo,
+    Validator,
+    VoteInfo,
+};
+use tendermint_proto::types::CanonicalVoteExtension;
+
+use super::*;
+use crate::{
+    address::StateWriteExt as _,
+    app::StateWriteExt as _,
+    authority::StateWriteExt as _,
+    oracles::price_feed::{
+        market_map::state_ext::StateWriteExt as _,
+        oracle::state_ext::StateReadExt as _,
+    },
+};
+
+const CHAIN: &str = "verif-15";
+
+/// Error *classes* (never messages) of everything the driven functions can return.
+const CLASSES: &[(&str, &str)] = &[
+    ("voted twice", "dup"),
+    ("calculating total voting power overflowed", "total_overflow"),
+    ("vote extension signature is missing", "sig_missing"),
+    ("failed to create signature", "sig_bytes"),
+    ("non-commit vote extension present", "nc_ext"),
+    ("non-commit extension signature present", "nc_sig"),
+    ("calculating submitted voting power overflowed", "sub_overflow"),
+    ("failed to get verification key", "nokey"),
+    ("failed to verify signature for vote extension", "badsig"),
+    ("total voting power is zero", "zero_total"),
+    ("failed to multiply total voting power by 2", "mul_overflow"),
+    ("failed to divide total voting power by 3", "div_overflow"),
+    ("failed to add 1", "add_overflow"),
+    ("submitted voting power is less than required", "insufficient"),
+    ("last commit round does not match", "round"),
+    ("votes length does not match", "len"),
+    ("vote address does not match", "addr"),
+    ("vote power does not match", "power"),
+    ("sig info does not match", "flag"),
+    ("failed to decode oracle vote extension", "ve_decode"),
+    ("exceeds max expected number of currency pairs", "ve_count"),
+    ("encoded price length exceeded", "ve_len"),
+    ("failed to validate currency pair mapping", "map"),
+    ("failed to decode price feed oracle vote extension", "decode"),
+    ("failed to convert raw price feed oracle vote extension", "price"),
+    ("currency pair state not found", "nopairstate"),
+];
+
+fn class<E: std::fmt::Display>(err: &E) -> String {
+    let msg = format!("{err:#}");
+    for (needle, class) in CLASSES {
+        if msg.contains(needle) {
+            return (*class).to_string();
+        }
+    }
+    "other".to_string()
+}
+
+fn key(k: u8) -> SigningKey {
+    SigningKey::from([k; 32])
+}
+
+fn pair(name: u64) -> CurrencyPair {
+    let letters: String = name
+        .to_string()
+        .bytes()
+        .map(|b| char::from(b - b'0' + b'a'))
+        .collect();
+    format!("VP{letters}/USD").parse().unwrap()
+}
+
+fn pair_name(pair: &CurrencyPair) -> String {
+    let s = pair.to_string();
+    let base = s.split('/').next().unwrap();
+    match base.strip_prefix("VP") {
+        Some(letters) if s.ends_with("/USD") => letters
+            .bytes()
+            .map(|b| char::from(b - b'a' + b'0'))
+            .collect(),
+        _ => format!("?{s}"),
+    }
+}
+
+fn flag(s: &str) -> tendermint::abci::types::BlockSignatureInfo {
+    use tendermint::{
+        abci::types::BlockSignatureInfo,
+        block::BlockIdFlag,
+    };
+    match s {
+        "absent" => Flag(BlockIdFlag::Absent),
+        "commit" => Flag(BlockIdFlag::Commit),
+        "nil" => Flag(BlockIdFlag::Nil),
+        "legacy" => BlockSignatureInfo::LegacySigned,
+        other => panic!("unknown flag {other}"),
+    }
+}
+
+fn flag_letter(f: &tendermint::abci::types::BlockSignatureInfo) -> char {
+    use tendermint::{
+        abci::types::BlockSignatureInfo,
+        block::BlockIdFlag,
+    };
+    match f {
+        Flag(BlockIdFlag::Absent) => 'a',
+        Flag(BlockIdFlag::Commit) => 'c',
+        Flag(BlockIdFlag::Nil) => 'n',
+        BlockSignatureInfo::LegacySigned => 'l',
+    }
+}
+
+fn ext_bytes(spec: &str) -> Vec<u8> {
+    match spec {
+        "-" => vec![],
+        "g" => vec![0xff],
+        "u" => vec![0x10, 0x01],
+        _ => {
+            let mut prices = BTreeMap::new();
+            for item in spec.split(',') {
+                let (id, price) = item.split_once(':').unwrap();
+                let bytes = if let Some(n) = price.strip_prefix('L') {
+                    vec![1u8; n.parse().unwrap()]
+                } else {
+                    price.parse::<i128>().unwrap().to_be_bytes().to_vec()
+                };
+                prices.insert(id.parse::<u64>().unwrap(), bytes.into());
+            }
+            RawOracleVoteExtension {
+                prices,
+            }
+            .encode_to_vec()
+        }
+    }
+}
+
+struct Case {
+    header: String,
+    height: u64,
+    ec_round: u32,
+    lc_round: u32,
+    max_pairs: u64,
+    vals: Vec<(u8, u64)>,
+    pairs: Vec<(u64, u64, u8)>,
+    votes: Vec<Vec<String>>,
+    lc: Vec<(u8, u64, String)>,
+    map: Vec<(u64, u64, u8)>,
+}
+
+fn kv<'a>(toks: &'a [&str], name: &str) -> &'a str {
+    toks.iter()
+        .find_map(|t| t.strip_prefix(name).and_then(|r| r.strip_prefix('=')))
+        .unwrap_or_else(|| panic!("missing {name}"))
+}
+
+fn signature(case: &Case, k: u8, ext: &[u8], spec: &str) -> Option<tendermint::Signature> {
+    let mut signer = k;
+    let mut message = CanonicalVoteExtension {
+        extension: ext.to_vec(),
+        height: case.height.wrapping_sub(1) as i64,
+        round: i64::from(case.ec_round),
+        chain_id: CHAIN.to_string(),
+    };
+    match spec.split_once(':').unwrap_or((spec, "")) {
+        ("none", _) => return None,
+        ("zero", _) => return Some(vec![0u8; 64].try_into().unwrap()),
+        ("ok", _) => {}
+        ("by", j) => signer = j.parse().unwrap(),
+        ("round", r) => message.round = r.parse().unwrap(),
+        ("height", h) => message.height = h.parse::<u64>().unwrap() as i64,
+        ("chain", _) => message.chain_id = "other-chain".to_string(),
+        ("ext", _) => message.extension.push(0x18),
+        (other, _) => panic!("unknown sig spec {other}"),
+    }
+    let bytes = key(signer)
+        .sign(&message.encode_length_delimited_to_vec())
+        .to_bytes()
+        .to_vec();
+    Some(bytes.try_into().unwrap())
+}
+
+fn extended_commit(case: &Case) -> ExtendedCommitInfo {
+    let votes = case
+        .votes
+        .iter()
+        .map(|v| {
+            let k: u8 = v[0].parse().unwrap();
+            let power: u64 = v[1].parse().unwrap();
+            let ext = ext_bytes(&v[3]);
+            ExtendedVoteInfo {
+                validator: Validator {
+                    address: *key(k).verification_key().address_bytes(),
+                    power: power.try_into().unwrap(),
+                },
+                sig_info: flag(&v[2]),
+                extension_signature: signature(case, k, &ext, &v[4]),
+                vote_extension: ext.into(),
+            }
+        })
+        .collect();
+    ExtendedCommitInfo {
+        round: case.ec_round.try_into().unwrap(),
+        votes,
+    }
+}
+
+fn last_commit(case: &Case) -> CommitInfo {
+    CommitInfo {
+        round: case.lc_round.try_into().unwrap(),
+        votes: case
+            .lc
+            .iter()
+            .map(|(k, power, f)| VoteInfo {
+                validator: Validator {
+                    address: *key(*k).verification_key().address_bytes(),
+                    power: (*power).try_into().unwrap(),
+                },
+                sig_info: flag(f),
+            })
+            .collect(),
+    }
+}
+
+fn mapping(entries: &[(u64, u64, u8)]) -> IndexMap<CurrencyPairId, CurrencyPairInfo> {
+    entries
+        .iter()
+        .map(|(id, name, decimals)| {
+            (
+                CurrencyPairId::new(*id),
+                CurrencyPairInfo {
+                    currency_pair: pair(*name),
+                    decimals: *decimals,
+                },
+            )
+        })
+        .collect()
+}
+
+fn state_for(case: &Case, snapshot: Snapshot) -> StateDelta<Snapshot> {
+    let mut state = StateDelta::new(snapshot);
+    state
+        .put_chain_id_and_revision_number(CHAIN.try_into().unwrap())
+        .unwrap();
+    state.put_base_prefix("astria".to_string()).unwrap();
+    for (k, power) in &case.vals {
+        state
+            .put_validator(&ValidatorUpdate {
+                power: u32::try_from(*power).unwrap_or(u32::MAX),
+                verification_key: key(*k).verification_key(),
+                name: format!("v{k}").parse().unwrap(),
+            })
+            .unwrap();
+    }
+    let mut market_map = MarketMap {
+        markets: IndexMap::new(),
+    };
+    for (id, name, decimals) in &case.pairs {
+        let pair = pair(*name);
+        state
+            .put_currency_pair_state(
+                pair.clone(),
+                CurrencyPairState {
+                    price: None,
+                    nonce: CurrencyPairNonce::new(0),
+                    id: CurrencyPairId::new(*id),
+                },
+            )
+            .unwrap();
+        market_map.markets.insert(
+            pair.to_string(),
+            Market {
+                ticker: Ticker {
+                    currency_pair: pair,
+                    decimals: *decimals,
+                    min_provider_count: 0,
+                    enabled: true,
+                    metadata_json: String::new(),
+                },
+                provider_configs: Vec::new(),
+            },
+        );
+    }
+    state.put_num_currency_pairs(case.max_pairs).unwrap();
+    state.put_market_map(market_map).unwrap();
+    state
+}
+
+fn unit_result(res: std::thread::Result<Result<()>>) -> String {
+    match res {
+        Ok(Ok(())) => "ok".to_string(),
+        Ok(Err(e)) => format!("err={}", class(&e)),
+        Err(_) => "panic".to_string(),
+    }
+}
+
+fn describe_votes(info: &ExtendedCommitInfo) -> String {
+    let votes: Vec<String> = info
+        .votes
+        .iter()
+        .map(|v| {
+            format!(
+                "{}{}{}",
+                flag_letter(&v.sig_info),
+                if v.vote_extension.is_empty() { "" } else { "e" },
+                if v.extension_signature.is_some() { "s" } else { "" },
+            )
+        })
+        .collect();
+    if votes.is_empty() {
+        "-".to_string()
+    } else {
+        votes.join(",")
+    }
+}
+
+fn describe_mapping(map: &IndexMap<CurrencyPairId, CurrencyPairInfo>) -> String {
+    let mut entries: Vec<(u64, String)> = map
+        .iter()
+        .map(|(id, info)| {
+            (
+                id.get(),
+                format!(
+                    "{}:{}:{}",
+                    id.get(),
+                    pair_name(&info.currency_pair),
+                    info.decimals
+                ),
+            )
+        })
+        .collect();
+    entries.sort();
+    if entries.is_empty() {
+        "-".to_string()
+    } else {
+        entries
+            .into_iter()
+            .map(|(_, s)| s)
+            .collect::<Vec<_>>()
+            .join(",")
+    }
+}
+
+fn run_case(case: &Case, rt: &tokio::runtime::Runtime, snapshot: Snapshot, out: &mut String) {
+    writeln!(out, "{}", case.header).unwrap();
+    let mut state = state_for(case, snapshot);
+    let info = extended_commit(case);
+    let last_commit = last_commit(case);
+    let proposal = ExtendedCommitInfoWithCurrencyPairMapping::new(info.clone(), mapping(&case.map));
+
+    // validate_vote_extensions (documented for heights > 1 only)
+    let res = catch_unwind(AssertUnwindSafe(|| {
+        rt.block_on(validate_vote_extensions(&state, case.height, &info))
+    }));
+    writeln!(out, "vve {}", unit_result(res)).unwrap();
+
+    // ProposalHandler::validate_proposal (process_proposal side)
+    let res = catch_unwind(AssertUnwindSafe(|| {
+        rt.block_on(ProposalHandler::validate_proposal(
+            &state,
+            case.height,
+            &last_commit,
+            &proposal,
+        ))
+    }));
+    writeln!(out, "validate {}", unit_result(res)).unwrap();
+
+    // ProposalHandler::prepare_proposal (proposer side) with App::prepare_proposal's fallback
+    let res = catch_unwind(AssertUnwindSafe(|| {
+        rt.block_on(ProposalHandler::prepare_proposal(
+            &state,
+            case.height,
+            info.clone(),
+        ))
+    }));
+    let proposed = match res {
+        Ok(Ok(prepared)) => {
+            writeln!(
+                out,
+                "prepare ok votes={} map={}",
+                describe_votes(&prepared.extended_commit_info),
+                describe_mapping(&prepared.id_to_currency_pair)
+            )
+            .unwrap();
+            Some(prepared)
+        }
+        Ok(Err(e)) => {
+            writeln!(out, "prepare err={}", class(&e)).unwrap();
+            Some(ExtendedCommitInfoWithCurrencyPairMapping::empty(info.round))
+        }
+        Err(_) => {
+            writeln!(out, "prepare panic").unwrap();
+            None
+        }
+    };
+    if let Some(proposed) = proposed {
+        let res = catch_unwind(AssertUnwindSafe(|| {
+            rt.block_on(ProposalHandler::validate_proposal(
+                &state,
+                case.height,
+                &last_commit,
+                &proposed,
+            ))
+        }));
+        writeln!(out, "revalidate {}", unit_result(res)).unwrap();
+    } else {
+        writeln!(out, "revalidate skipped").unwrap();
+    }
+
+    // price aggregation through the public entry point of astria-core
+    let res = catch_unwind(AssertUnwindSafe(|| {
+        astria_core::oracles::price_feed::utils::calculate_prices_from_vote_extensions(
+            &proposal.extended_commit_info,
+            &proposal.id_to_currency_pair,
+        )
+    }));
+    match res {
+        Ok(Ok(prices)) => {
+            let items: Vec<String> = prices
+                .iter()
+                .map(|p| {
+                    format!(
+                        "{}:{}={}",
+                        pair_name(p.currency_pair()),
+                        p.decimals(),
+                        p.price().get()
+                    )
+                })
+                .collect();
+            writeln!(
+                out,
+                "prices ok {}",
+                if items.is_empty() {
+                    "-".to_string()
+                } else {
+                    items.join(",")
+                }
+            )
+            .unwrap();
+        }
+        Ok(Err(e)) => writeln!(out, "prices err={}", class(&e)).unwrap(),
+        Err(_) => writeln!(out, "prices panic").unwrap(),
+    }
+
+    // apply_prices_from_vote_extensions (finalize_block side), then read the store back
+    let timestamp = Timestamp {
+        seconds: 7,
+        nanos: 0,
+    };
+    let res = catch_unwind(AssertUnwindSafe(|| {
+        rt.block_on(apply_prices_from_vote_extensions(
+            &mut state,
+            &proposal,
+            timestamp,
+            case.height,
+        ))
+    }));
+    match res {
+        Ok(Ok(())) => {
+            let mut names: Vec<u64> = case.pairs.iter().map(|(_, name, _)| *name).collect();
+            names.sort_unstable();
+            names.dedup();
+            let mut items = Vec::new();
+            for name in names {
+                let stored = rt
+                    .block_on(state.get_currency_pair_state(&pair(name)))
+                    .unwrap();
+                if let Some(quote) = stored.and_then(|s| s.price) {
+                    items.push(format!("{name}={}", quote.price.get()));
+                }
+            }
+            writeln!(
+                out,
+                "apply ok {}",
+                if items.is_empty() {
+                    "-".to_string()
+                } else {
+                    items.join(",")
+                }
+            )
+            .unwrap();
+        }
+        Ok(Err(e)) => writeln!(out, "apply err={}", class(&e)).unwrap(),
+        Err(_) => writeln!(out, "apply panic").unwrap(),
+    }
+}
+
+#[test]
+fn drive() {
+    let Ok(path) = std::env::var("VERIF_IN") else {
+        return;
+    };
+    let input = std::fs::read_to_string(path).unwrap();
+    let rt = tokio::runtime::Builder::new_current_thread()
+        .enable_all()
+        .build()
+        .unwrap();
+    let storage = rt.block_on(TempStorage::new()).unwrap();
+    // silence the default panic printer: expected panics are reported as `<op> panic`
+    if std::env::var_os("VERIF_TRACE").is_none() {
+        std::panic::set_hook(Box::new(|_| {}));
+    }
+    let mut out = String::new();
+    let mut case: Option<Case> = None;
+    for line in input.lines() {
+        let toks: Vec<&str> = line.split_whitespace().collect();
+        let Some(&cmd) = toks.first() else { continue };
+        match cmd {
+            "case" => {
+                if let Some(c) = case.take() {
+                    run_case(&c, &rt, storage.latest_snapshot(), &mut out);
+                }
+                case = Some(Case {
+                    header: format!("case {}", toks[1]),
+                    height: kv(&toks, "h").parse().unwrap(),
+                    ec_round: kv(&toks, "ecr").parse().unwrap(),
+                    lc_round: kv(&toks, "lcr").parse().unwrap(),
+                    max_pairs: kv(&toks, "maxpairs").parse().unwrap(),
+                    vals: vec![],
+                    pairs: vec![],
+                    votes: vec![],
+                    lc: vec![],
+                    map: vec![],
+                });
+            }
+            "val" => case
+                .as_mut()
+                .unwrap()
+                .vals
+                .push((toks[1].parse().unwrap(), toks[2].parse().unwrap())),
+            "pair" => case.as_mut().unwrap().pairs.push((
+                toks[1].parse().unwrap(),
+                toks[2].parse().unwrap(),
+                toks[3].parse().unwrap(),
+            )),
+            "vote" => case
+                .as_mut()
+                .unwrap()
+                .votes
+                .push(toks[1..6].iter().map(ToString::to_string).collect()),
+            "lc" => case.as_mut().unwrap().lc.push((
+                toks[1].parse().unwrap(),
+                toks[2].parse().unwrap(),
+                toks[3].to_string(),
+            )),
+            "map" => case.as_mut().unwrap().map.push((
+                toks[1].parse().unwrap(),
+                toks[2].parse().unwrap(),
+                toks[3].parse().unwrap(),
+            )),
+            other => panic!("unknown op {other}"),
+        }
+    }
+    if let Some(c) = case.take() {
+        run_case(&c, &rt, storage.latest_snapshot(), &mut out);
+    }
+    let _ = std::panic::take_hook();
+    std::fs::write(std::env::var("VERIF_OUT").expect("VERIF_OUT"), out).unwrap();
+}
